@@ -204,8 +204,15 @@ pub fn run_body(ctx: &Ctx, rep: &mut Report) {
         rep.seen("dist-backends", n);
     }
     rep.set_floor("dist-backends", ctx.param_u64("expect_dist_backends", 3));
-    let t = byte_table();
-    let tb = |x: u8, y: u8| t[x as usize * 256 + y as usize] as u32;
+    // (the memoised per-byte table is too slow to build under an interpreter)
+    let t = if ctx.scale < 1.0 { Vec::new() } else { byte_table() };
+    let tb = |x: u8, y: u8| {
+        if t.is_empty() {
+            oracle::dist_body(&[x], &[y])
+        } else {
+            t[x as usize * 256 + y as usize] as u32
+        }
+    };
     let backgrounds: u64 = if ctx.scale < 1.0 {
         1
     } else if ctx.thorough() {
@@ -238,15 +245,18 @@ pub fn run_body(ctx: &Ctx, rep: &mut Report) {
                 }
                 let (sa, sb) = (a[p], b[p]);
                 let base = full - tb(sa, sb);
-                let step = if small { 37 } else { 1 };
+                let step = if small { 85 } else { 1 };
+                let ystep = if small { 51 } else { 1 };
                 let mut x = 0usize;
                 while x < 256 {
-                    for y in 0..256usize {
+                    let mut y = (x / 85) % ystep;
+                    while y < 256 {
                         a[p] = x as u8;
                         b[p] = y as u8;
                         body_eval(&be, &a, &b, base + tb(x as u8, y as u8), rep, &mut evals);
+                        rep.count("distinct_by_construction", 1);
+                        y += ystep;
                     }
-                    rep.count("distinct_by_construction", 256);
                     x += step;
                 }
                 a[p] = sa;
